@@ -155,30 +155,48 @@ class CacheMonitor:
         pattern = []
 
         def register(at):
-            cbid = len(regs)
             p = rng.choice(params)
             key = rng.choice([None, p[0], (p[0], p[2])])
-            kind = rng.choice(['updateItem', 'updateEvent'])
-            oneshot = rng.choice([1, 1, 2]) if rng.random() < 0.35 else None
-            f = mk(cbid, kind, oneshot)
+            # one register_callback() call may carry several callbacks (one per callback name); a one-shot among them may
+            # already leave during the immediate call-back with the cached state ('immediate')
+            kinds_ = rng.sample(['updateItem', 'updateEvent'], rng.choice([1, 1, 2]))
+            group = []
+            for kind in kinds_:
+                cbid = len(regs)
+                q = rng.random()
+                oneshot = rng.choice([1, 1, 2]) if q < 0.35 else None
+                immediate = oneshot == 1 and rng.random() < 0.4
+                f = mk(cbid, kind, oneshot)
+                if immediate:
+                    f.arm()
+                regs.append([cbid, key, kind, f, at, True])
+                group.append((cbid, kind, f, immediate))
+                pattern.append(('reg', 'node' if key is None else 'module' if isinstance(key, str) else 'param', kind) +
+                               (('oneshot', oneshot) if oneshot else ()) + (('immediate',) if immediate else ()) +
+                               (('same-call',) if len(kinds_) > 1 else ()))
             n0 = len(calls)
             snapshot = {k: v for k, v in client.cache.items()}
-            regs.append([cbid, key, kind, f, at, True])
-            client.register_callback(key, **{kind: f})
-            f.arm()
-            pattern.append(('reg', 'node' if key is None else 'module' if isinstance(key, str) else 'param', kind) + (('oneshot', oneshot) if oneshot else ()))
+            client.register_callback(key, **{kind: f for cbid, kind, f, _ in group})
+            for cbid, kind, f, _ in group:
+                f.arm()
+                if regs[cbid][5] == 'leaving':
+                    regs[cbid][5] = False            # left during the registration itself
             # registration calls back immediately with the cached state
-            r.count('registration_calls_checked')
-            got = [(c[2], c[3]) for c in calls[n0:]]
             if key is None:
                 want = list(snapshot)
             elif isinstance(key, str):
                 want = [k for k in snapshot if k[0] == key]
             else:
                 want = [key] if key in snapshot else []
-            if sorted(got) != sorted(want) or any(c[0] != cbid for c in calls[n0:]):
-                r.violation('C12/registration-callback-differs', f'registering at key {key!r}: called for {got[:4]}, cache has {want[:4]}',
-                            {'sub': 'cache', 'pattern': pattern})
+            for cbid, kind, f, _ in group:
+                r.count('registration_calls_checked')
+                got = [(c[2], c[3]) for c in calls[n0:] if c[0] == cbid]
+                if sorted(got) != sorted(want):
+                    r.violation('C12/registration-callback-differs', f'registering at key {key!r}: {kind} called for {got[:4]}, cache has {want[:4]}',
+                                {'sub': 'cache', 'pattern': pattern})
+                    return False
+            if any(c[0] not in [g[0] for g in group] for c in calls[n0:]):
+                r.violation('C12/registration-callback-differs', f'registering at key {key!r} called other callbacks', {'sub': 'cache', 'pattern': pattern})
                 return False
             return True
         for _ in range(rng.choice([0, 1, 2, 3, 4])):
